@@ -164,4 +164,11 @@ def run(chk):
     nseq = sum(r.count('T') for r in rel if r)
     chk.add_samples('matcher', len(lines), len(set(lines)), [{'program': lines[i][:160], 'result': (rel[i] or '')[:160]} for i in (nex - 1, small - 1, len(lines) - 1)],
                     rule='exhaustive: every binary string of length <= %d as one block, as two blocks and after a skipped block (window 16 / 6); ternary strings of length 7-8 re-presented across evictions; %d random operation sequences (1-13 blocks of 0..2 slices, alphabets 1..256 with material repeated from earlier blocks, 5%% resets, 20%% skipped blocks) on scaled-down windows (slice 7..100 x 1..5); %d on windows up to the production 128 KiB x 1' % (L, nrand, len(lines) - small))
-    chk.cov['components']['matcher'].update({'exhaustive_lines': nex, 'matches_reported': nseq})
+    # match lengths: those of 8 and more went through at least one whole chunk of the source's chunked comparison
+    # (mismatch_chunks::<8>), those that are not a multiple of 8 also through its byte-wise tail
+    mls = [int(t.split(',')[2]) for r in rel if r for w in r.split() if w.startswith('m:') and w != 'm:-' for t in w[2:].split(';') if t[0] == 'T']
+    chk.cov['components']['matcher'].update({'exhaustive_lines': nex, 'matches_reported': nseq,
+                                             'matches_of_8_or_more_bytes': sum(1 for m in mls if m >= 8),
+                                             'matches_of_16_or_more_bytes': sum(1 for m in mls if m >= 16),
+                                             'matches_of_8_or_more_with_byte_tail': sum(1 for m in mls if m >= 8 and m % 8),
+                                             'longest_match': max(mls) if mls else 0})
